@@ -177,6 +177,24 @@ def records(ctx):
             add(op, dict(inp, s=before), o1, site)
             add(op, dict(inp, s=before), o2, site + '[second call on the same object]')
             recs.append({'id': 'unchanged-%d' % next(nid), 'op': 'unchanged', 'in': {'law': 'ObjectUnchangedBy:' + op}, 'out': {'s': before, 't': after}, 'site': site})
+    # a refused operation (mixed folding) must leave both operands as they were - in particular the in-place forms
+    for k, opn in enumerate(['add', 'sub', 'mul', 'div', 'floordiv', 'pow']):
+        ndim = [1, 2, 3][k % 3]
+        sh = rand_shape(r3, ndim, 2, 5)
+        a = rand_spectrum(r3, sh, folded=(k % 2 == 0), labels=rand_labels(r3, ndim), integer=False)
+        b = rand_spectrum(r3, sh, folded=(k % 2 == 1), labels=a.pop_ids, integer=False)
+        a.data[a.data == 0] = 1.5
+        b.data[b.data == 0] = 2.5
+        for mode, call in (('inplace', lambda: iops[opn](a, b)), ('plain', lambda: ops[opn](a, b))):
+            ba, bb = enc(a), enc(b)
+            try:
+                call()
+                raised = False
+            except Exception:
+                raised = True
+            for nm, bef, obj in (('Left', ba, a), ('Right', bb, b)):
+                recs.append({'id': 'unchanged-%d' % next(nid), 'op': 'unchanged', 'in': {'law': nm + 'OperandUnchangedByRefusedOperation', 'refused': raised},
+                             'out': {'s': bef, 't': enc(obj)}, 'site': 'Spectrum.__%s%s__' % ('i' if mode == 'inplace' else '', opn)})
     # likelihood evaluation, residuals and scaling leave BOTH operands as they were (values, masks, folding, labels), also
     # when model and data carry different masks; in-place operators with a plain masked array as right operand
     for k in range(8 if ctx.quick else 48):
